@@ -17,6 +17,7 @@ func init() {
 			{Test: "TestC01_Stdio", Quick: 1200, Thorough: 20000, Shards: 2},
 			{Test: "TestC01_StdioRT", Quick: 60, Thorough: 2000, Shards: 4},
 			{Test: "TestC01_SessionIDRT", Quick: 40, Thorough: 1000, Shards: 4},
+			{Test: "TestC01_Ephemeral", Quick: 300, Thorough: 10000, Shards: 4},
 		},
 	})
 }
